@@ -1,7 +1,7 @@
 //! orchestration: generate cases, run the implementation, ask the model driver, shrink failures, write the summary
 use crate::compile::{self, Program};
 use crate::cli::{self, CliCase, InputKind, OutKind};
-use crate::cases2::{self, ListCase, Op, OpsCase, PairCase, TableCase};
+use crate::cases2::{self, ListCase, Op, OpsCase, PairCase, SubCase, TableCase};
 use crate::dom::{Doc, Item, Node};
 use crate::driver::{self, Verdict};
 use crate::gen::{self, GenCfg, Theme};
@@ -657,7 +657,7 @@ pub fn rule_for(prop: &str) -> String {
         "C14" => "generated histories over themes with recurring names; non-trivial = the same element name occurs at several positions",
         "C15" => "all pairs of duplicate-free tagged lists over a small alphabet (exhaustive), random pairs up to length 40 beyond; distinct = hash of the case line; non-trivial = the second list has >= 2 items absent from the first",
         "C16" => "all operation sequences up to a length bound over a fixed single-operation alphabet (exhaustive), random sequences up to length 60 at depth <= 3 beyond; non-trivial = the sequence adds a present name, or removes then adds, or operates on a name after set_child_optional",
-        "C06" => "generated histories of 2-5 documents, each paired with 3 permutations, a duplication, an interleaving with element-less inputs, an insertion of a faulty document and a variant whose first input repeats its root element; non-trivial = the schema has >= 2 positions",
+        "C06" => "generated histories of 2-5 documents, each paired with 3 permutations, a duplication, an interleaving with element-less inputs, an insertion of a faulty document, a variant whose first input repeats its root element, and a sub-structure (the element at a path of the parsed structure) extended with occurrences of that element; non-trivial = the schema has >= 2 positions",
         "C02" => "generated data-oriented histories; each rendering (quick-xml preset, unchanged, and a copy with deny_unknown_fields on every struct) is compiled by the real rustc with serde_derive and run: quick_xml::de::from_str on every source document, the value is fed to a string-collecting Serializer (every attribute value and text must be in it) and to a dumping Serializer whose output is compared with the value the Lean deserializer model (Model/Deser.lean) computes from the rendered text, for the source documents and for 1-3 foreign variants per program (extra.deser_model_*); non-trivial = program with >= 2 structs, >= 1 Option and >= 1 Vec field",
         "C13" => "as C02 with the serde-xml-rs preset and serde_xml_rs::from_str (namespace-free, repeated children adjacent, attribute names distinct from child names); non-trivial = program with >= 2 structs, >= 1 Option and >= 1 Vec field",
         "C12" => "scenarios = input (generated valid document, structured fault, byte mutation, not UTF-8, missing, directory) x --parser x --derive x --sort x output (stdout, new file, existing file, missing directory, a directory), run with the real binary in a fresh directory; non-trivial = not (valid input, all defaults, stdout)",
@@ -1026,12 +1026,15 @@ fn elementless_doc(rng: &mut Rng) -> DocInput {
 pub fn check_c06(sum: &mut Summary) {
     let thorough = sum.tier == "thorough";
     let mut cases: Vec<PairCase> = load_corpus_values("C06").iter().filter_map(PairCase::from_json).collect();
-    sum.extra.insert("corpus_cases".into(), json!(cases.len()));
+    let mut subs: Vec<SubCase> = load_corpus_values("C06").iter().filter(|v| v["kind"] == "sub-structure").filter_map(SubCase::from_json).collect();
+    sum.extra.insert("corpus_cases".into(), json!(cases.len() + subs.len()));
     let mut rng = Rng::new(sum.seed ^ 0xC06);
     let n = if thorough { 60_000 } else { 1_500 };
     for i in 0..n {
         if i % 2000 == 1999 {
             let batch = std::mem::take(&mut cases);
+            run_cases(sum, batch, 3);
+            let batch = std::mem::take(&mut subs);
             run_cases(sum, batch, 3);
             if let Some(d) = sum.deadline {
                 if Instant::now() > d {
@@ -1096,8 +1099,68 @@ pub fn check_c06(sum: &mut Summary) {
             g.docs.push(again);
             cases.push(PairCase { rel: "fragment".into(), a: base.clone(), b: g, nontrivial: true });
         }
+        {
+            // a sub-structure: the element at a path of child names is taken out of the parsed structure and extended
+            // with occurrences of that element (some of them reduced) and element-less inputs
+            let src = &h.docs[r.below(h.docs.len())];
+            let path = random_path(&mut r, &src.root);
+            if !path.is_empty() {
+                let mut occ: Vec<&crate::dom::Node> = Vec::new();
+                for d in &h.docs {
+                    nodes_at(&d.root, &path, &mut occ);
+                }
+                let mut ext: Vec<DocInput> = Vec::new();
+                for _ in 0..r.range(1, 3) {
+                    let mut n = (*r.pick(&occ)).clone();
+                    if r.chance(1, 2) {
+                        let smaller = crate::hcase::shrink_node(&n);
+                        if !smaller.is_empty() {
+                            n = smaller[r.below(smaller.len())].clone();
+                        }
+                    }
+                    ext.push(DocInput::from_dom(crate::dom::Doc::plain(n)));
+                }
+                if r.chance(1, 2) {
+                    let j = r.below(ext.len() + 1);
+                    ext.insert(j, elementless_doc(&mut r));
+                }
+                subs.push(SubCase { base: base.clone(), path, ext: HistoryCase { docs: ext, cfg: rcfg, opts: vec![OptRec::quick()], repeats: 1, theme: theme.clone() } });
+            }
+        }
     }
     run_cases(sum, cases, 3);
+    run_cases(sum, subs, 3);
+}
+
+fn nodes_at<'a>(n: &'a crate::dom::Node, path: &[String], out: &mut Vec<&'a crate::dom::Node>) {
+    if path.is_empty() {
+        out.push(n);
+        return;
+    }
+    for c in n.children() {
+        if c.name == path[0] {
+            nodes_at(c, &path[1..], out);
+        }
+    }
+}
+
+/// a path of child names that exists below `root` (empty if the root has no child elements)
+fn random_path(r: &mut Rng, root: &crate::dom::Node) -> Vec<String> {
+    let mut path = Vec::new();
+    let mut cur = root;
+    loop {
+        let kids: Vec<&crate::dom::Node> = cur.children().collect();
+        if kids.is_empty() {
+            break;
+        }
+        let k = *r.pick(&kids);
+        path.push(k.name.clone());
+        cur = k;
+        if r.chance(1, 2) {
+            break;
+        }
+    }
+    path
 }
 
 pub fn check_c12(sum: &mut Summary) {
@@ -2114,6 +2177,10 @@ pub fn replay(prop: &str, cv: &Value) -> i32 {
                 }
             }
         }
+        "sub-structure" => match SubCase::from_json(cv) {
+            Some(c) => replay_case(prop, &c),
+            None => 2,
+        },
         "pair" => match PairCase::from_json(cv) {
             Some(c) => replay_case(prop, &c),
             None => 2,
